@@ -243,6 +243,17 @@ def drive_many_layers(fullgrid, rng):
     drive(fullgrid, b, o, t, rng)
 
 
+def drive_many_rows(fullgrid, rng):
+    """more than 2^16 rows with a rotation count that is not a power of two: an array filled block-wise (or indexed with a narrow integer
+    type) keeps the phase n mod n_b only up to the first block boundary"""
+    n_b = rng.choice([5, 7, 9])
+    n_o = rng.choice([300, 400, 600])
+    T = (2 ** 16) // (n_b * n_o) + rng.randint(1, 3)
+    t = f"linspace(0.2, {0.2 + 0.05 * T:.2f}, {T})"
+    REC.classes["more than 2^16 rows"] += 1
+    drive(fullgrid, f"cube4D_{n_b}", rng.choice([f"ico_{n_o}", f"cube3D_{n_o}"]), t, rng)
+
+
 # building the rotation grid costs ~4e-4 * n_b^2 s, so the complete sweep stops at SWEEP_MAX and larger n_b are sampled
 SWEEP_MAX = {"quick": 128, "thorough": 400}
 SWEEP_SAMPLE = {"quick": (129, 256, 1), "thorough": (401, 700, 2)}
@@ -271,6 +282,8 @@ def run_shard(spec):
         return
     for it in range(spec.get("layers", 0)):
         drive_many_layers(fullgrid, rng)
+    if spec["rseed"] % 1000 == 0 or (spec.get("tier") == "thorough" and spec["rseed"] % 1000 < 4):
+        drive_many_rows(fullgrid, rng)
     for it in range(spec["count"]):
         nb = rng.choice([1, 1, 2, 3, 4, 5, 8, 9, 13, 20, rng.randint(1, 20)])
         no = rng.choice([1, 2, 3, 4, 7, 12, 13, 42, 45, rng.randint(1, 45)])
